@@ -370,6 +370,19 @@ def run(ctx):
         if px is None or py is None or px[0] != py[0] or px[1]["c"] != py[1]["c"]:
             viol.append((c, "oracle", "SOXR_NO_DITHER output depends on the seed state", x, y, None))
     ctx.count("no_dither_determinism_pairs", len(det_cases))
+    # ---------- the environment overrides (INSTALL: SOXR_* variables tune the engines) do not touch the format conversion: the same
+    #            undithered API cases under each of them give the same samples and the same clip count
+    env_cases = [c for c in cases if c.tag == "api" and "dith" not in c.kern][:: max(1, len([c for c in cases if c.tag == "api"]) // (250 if ctx.quick else 2500))]
+    base = runner.impl([c.line() for c in env_cases])
+    for env in ({"SOXR_NOSMALLINTOPT": "0"}, {"SOXR_NOSMALLINTOPT": "1"}, {"SOXR_COEF_INTERP": "2"}, {"SOXR_STRICT_BUF": "1"}, {"SOXR_NUM_THREADS": "2"},
+                {"SOXR_USE_SIMD": "0"}, {"SOXR_USE_SIMD32": "0", "SOXR_USE_SIMD64": "1"}, {"SOXR_MIN_DFT_SIZE": "9", "SOXR_LARGE_DFT_SIZE": "11", "SOXR_COEFS_SIZE": "150"}):
+        got = G.run_lines(exe, [c.line() for c in env_cases], env=env)
+        ctx.count("env_override_comparisons", len(env_cases))
+        for c, x, y in zip(env_cases, base, got):
+            px, py = G.parse_out(x), G.parse_out(y)
+            if px is None or py is None or px[0] != py[0] or px[1]["c"] != py[1]["c"]:
+                viol.append((c, "oracle", "the conversion changes under the environment %s" % env, y, x, None))
+                break
     dcases = [c for c in cases if c.tag == "api-dith"][: (60 if ctx.quick else 400)]
     d1 = runner.impl([c.line() for c in dcases])
     d2 = runner.impl([G.Case(c.kern, c.n, c.ch, c.seed ^ 0x9E3779B97F4A7C15, 0, c.pats, c.itype).line() for c in dcases])
